@@ -119,6 +119,13 @@ func (c *Conversation) maybeRetransmit() ([]messageWithHeader, error) {
 		return nil, nil
 	}
 
+	// This is called for every Reveal Signature and Signature message, also
+	// ones that were ignored or rejected. As long as we are not encrypted
+	// nothing can be sent, and the pending messages must be kept for later.
+	if c.msgState != encrypted {
+		return nil, nil
+	}
+
 	return c.retransmit()
 }
 
